@@ -178,3 +178,157 @@ Proof.
   rewrite E. unfold vdivs. rewrite <- (map_id a) at 2. apply map_veqv; [|reflexivity].
   intros x y Exy. rewrite H, Exy. field.
 Qed.
+
+(* ---------- weighted sums and the AM-HM / Cauchy-Schwarz inequality ---------- *)
+Lemma qsum_cons x a : qsum (x :: a) = x + qsum a.
+Proof. reflexivity. Qed.
+Lemma qsum_nil : qsum [] = 0.
+Proof. reflexivity. Qed.
+Ltac vsimpl := unfold vmul in *; cbn [vdivs map2 map length] in *; change (map2 Qmult) with vmul in *;
+  rewrite ?qsum_cons, ?qsum_nil in *.
+Definition wsum (z p : vec) : Q := qsum (vmul z p).          (* sum z_i p_i *)
+Definition wsumi (z p : vec) : Q := qsum (map2 Qdiv z p).    (* sum z_i / p_i *)
+Definition nonneg (z : vec) : Prop := Forall (fun x => 0 <= x) z.
+Definition allpos (p : vec) : Prop := Forall (fun x => 0 < x) p.
+
+Lemma wsum_nonneg z p : nonneg z -> allpos p -> 0 <= wsum z p.
+Proof.
+  unfold wsum. intros Hz; revert p; induction Hz as [|x z Hx Hz IH]; intros p Hp; vsimpl; [lra|].
+  destruct Hp as [|y p Hy Hp]; vsimpl; [lra|]. specialize (IH _ Hp). nra.
+Qed.
+Lemma wsumi_nonneg z p : nonneg z -> allpos p -> 0 <= wsumi z p.
+Proof.
+  unfold wsumi. intros Hz; revert p; induction Hz as [|x z Hx Hz IH]; intros p Hp; vsimpl; [lra|].
+  destruct Hp as [|y p Hy Hp]; vsimpl; [lra|]. specialize (IH _ Hp).
+  assert (0 <= x / y) by (apply Qle_shift_div_l; lra). lra.
+Qed.
+
+Lemma wsum_pos z p : nonneg z -> allpos p -> length z = length p -> 0 < qsum z -> 0 < wsum z p.
+Proof.
+  unfold wsum. intros Hz; revert p; induction Hz as [|x z Hx Hz IH]; intros p Hp L S; vsimpl; [lra|].
+  destruct Hp as [|y p Hy Hp]; vsimpl; [discriminate|].
+  pose proof (wsum_nonneg z p Hz Hp) as N. unfold wsum in N.
+  destruct (Qlt_le_dec 0 x) as [Px|Nx].
+  - nra.
+  - assert (0 < qsum z) as S' by lra. specialize (IH _ Hp ltac:(lia) S'). nra.
+Qed.
+
+Lemma amhm_term x y t : 0 <= x -> 0 < y -> 0 < t -> 2 * x <= x * y / t + t * (x / y).
+Proof.
+  intros Hx Hy Ht.
+  assert (x * y / t + t * (x / y) - 2 * x == x * ((y - t) * (y - t)) / (t * y)) as E by (field; lra).
+  assert (0 <= x * ((y - t) * (y - t)) / (t * y)) as N.
+  { apply Qle_shift_div_l; [nra|]. rewrite Qmult_0_l.
+    apply Qmult_le_0_compat; [lra|]. destruct (Qlt_le_dec y t); nra. }
+  lra.
+Qed.
+
+Lemma amhm_t z p t : nonneg z -> allpos p -> length z = length p -> 0 < t ->
+  2 * qsum z <= wsum z p / t + t * wsumi z p.
+Proof.
+  unfold wsum, wsumi. intros Hz; revert p; induction Hz as [|x z Hx Hz IH]; intros p Hp L Ht; vsimpl.
+  - unfold Qdiv. lra.
+  - destruct Hp as [|y p Hy Hp]; vsimpl; [discriminate|].
+    specialize (IH _ Hp ltac:(lia) Ht). pose proof (amhm_term x y t Hx Hy Ht) as A.
+    assert ((x * y + qsum (vmul z p)) / t == x * y / t + qsum (vmul z p) / t) as E by (field; lra).
+    rewrite E. lra.
+Qed.
+
+(* (sum z)^2 <= (sum z p) (sum z / p) *)
+Lemma cauchy_weighted z p : nonneg z -> allpos p -> length z = length p ->
+  qsum z * qsum z <= wsum z p * wsumi z p.
+Proof.
+  intros Hz Hp L.
+  pose proof (wsum_nonneg z p Hz Hp) as A0. pose proof (wsumi_nonneg z p Hz Hp) as B0.
+  pose proof (qsum_nonneg z Hz) as S0.
+  destruct (Qlt_le_dec 0 (qsum z)) as [S|S].
+  - pose proof (wsum_pos z p Hz Hp L S) as A.
+    assert (0 < wsum z p / qsum z) as Ht by (apply Qlt_shift_div_l; lra).
+    pose proof (amhm_t z p _ Hz Hp L Ht) as H.
+    assert (wsum z p / (wsum z p / qsum z) == qsum z) as E1 by (field; lra).
+    rewrite E1 in H.
+    assert (wsum z p / qsum z * wsumi z p == wsum z p * wsumi z p / qsum z) as E2 by (field; lra).
+    rewrite E2 in H.
+    assert (qsum z <= wsum z p * wsumi z p / qsum z) as H' by lra.
+    apply (Qmult_le_compat_r _ _ (qsum z)) in H'; [|lra].
+    assert (wsum z p * wsumi z p / qsum z * qsum z == wsum z p * wsumi z p) as E3 by (field; lra).
+    rewrite E3 in H'. exact H'.
+  - assert (qsum z == 0) as Z by lra. rewrite Z. nra.
+Qed.
+
+(* dew pressure <= bubble pressure for ideal K-values: (sum z/p)^-1 <= sum z p *)
+Lemma dew_le_bubble_P_math z p : nonneg z -> allpos p -> length z = length p -> qsum z == 1 ->
+  0 < wsumi z p /\ 1 / wsumi z p <= wsum z p.
+Proof.
+  intros Hz Hp L S1. pose proof (cauchy_weighted z p Hz Hp L) as C. rewrite S1 in C.
+  pose proof (wsum_nonneg z p Hz Hp) as A0. pose proof (wsumi_nonneg z p Hz Hp) as B0.
+  assert (0 < wsumi z p) as B by nra.
+  split; [exact B|]. apply Qle_shift_div_r; lra.
+Qed.
+
+(* strict monotonicity of weighted sums *)
+Lemma wsum_lt z a b : nonneg z -> Forall2 Qlt a b -> length z = length a -> 0 < qsum z ->
+  wsum z a < wsum z b.
+Proof.
+  unfold wsum. intros Hz; revert a b; induction Hz as [|x z Hx Hz IH]; intros a b Hab L S; vsimpl; [lra|].
+  destruct Hab as [|u v a b Huv Hab]; vsimpl; [discriminate|].
+  assert (wsum z a <= wsum z b) as Hle.
+  { clear IH S L. unfold wsum. revert a b Hab. induction Hz as [|x' z Hx' Hz IH']; intros a b Hab; vsimpl; [lra|].
+    destruct Hab as [|u' v' a b Huv' Hab]; vsimpl; [lra|]. specialize (IH' _ _ Hab). nra. }
+  unfold wsum in Hle.
+  destruct (Qlt_le_dec 0 x) as [Px|Nx].
+  - nra.
+  - assert (0 < qsum z) as S' by lra. specialize (IH _ _ Hab ltac:(lia) S'). nra.
+Qed.
+
+(* vapour-pressure functions *)
+Definition pat (ps : list (Q -> Q)) (T : Q) : vec := map (fun f => f T) ps.
+Definition increasing (f : Q -> Q) : Prop := forall a b, a < b -> f a < f b.
+Definition positive (f : Q -> Q) : Prop := forall a, 0 < f a.
+
+Lemma pat_lt ps a b : Forall increasing ps -> a < b -> Forall2 Qlt (pat ps a) (pat ps b).
+Proof. intros H L; induction H; vsimpl; constructor; auto. Qed.
+Lemma pat_pos ps a : Forall positive ps -> allpos (pat ps a).
+Proof. intros H; induction H; vsimpl; constructor; auto. Qed.
+Lemma pat_length ps a : length (pat ps a) = length ps.
+Proof. apply map_length. Qed.
+
+(* bubble temperature <= dew temperature at the same pressure (ideal K-values, increasing Psat) *)
+Lemma bubble_le_dew_T_math ps z P Tb Td :
+  Forall increasing ps -> Forall positive ps -> nonneg z -> length z = length ps -> qsum z == 1 ->
+  0 < P ->
+  wsum z (pat ps Tb) == P ->            (* 1 - sum z_i Psat_i(Tb) / P = 0 *)
+  P * wsumi z (pat ps Td) == 1 ->       (* 1 - sum z_i P / Psat_i(Td) = 0 *)
+  Tb <= Td.
+Proof.
+  intros Hinc Hpos Hz L S1 HP Hb Hd.
+  destruct (Qlt_le_dec Td Tb) as [Lt|]; [exfalso|assumption].
+  assert (length z = length (pat ps Td)) as L' by (rewrite pat_length; exact L).
+  pose proof (cauchy_weighted z (pat ps Td) Hz (pat_pos ps Td Hpos) L') as C. rewrite S1 in C.
+  assert (0 < qsum z) as S by lra.
+  pose proof (wsum_lt z _ _ Hz (pat_lt ps Td Tb Hinc Lt) L' S) as W.
+  assert (wsumi z (pat ps Td) == 1 / P) as E by (field_simplify_eq; lra).
+  rewrite E in C.
+  assert (wsum z (pat ps Td) * (1 / P) == wsum z (pat ps Td) / P) as E2 by (field; lra).
+  rewrite E2 in C.
+  assert (1 * 1 * P <= wsum z (pat ps Td) / P * P) as C' by (apply Qmult_le_compat_r; lra).
+  assert (wsum z (pat ps Td) / P * P == wsum z (pat ps Td)) as E3 by (field; lra).
+  rewrite E3 in C'. lra.
+Qed.
+
+(* dew pressure <= bubble pressure at the same temperature, as roots of the two ideal residuals *)
+Lemma dew_le_bubble_P_roots p z Pb Pd :
+  allpos p -> nonneg z -> length z = length p -> qsum z == 1 ->
+  0 < Pb -> 0 < Pd ->
+  1 - wsum z p / Pb == 0 ->
+  1 - Pd * wsumi z p == 0 ->
+  Pd <= Pb.
+Proof.
+  intros Hp Hz L S1 HPb HPd Hb Hd.
+  destruct (dew_le_bubble_P_math z p Hz Hp L S1) as (B & H).
+  assert (wsum z p == Pb) as Eb.
+  { assert (wsum z p / Pb == 1) as E by lra.
+    assert (wsum z p / Pb * Pb == wsum z p) as E' by (field; lra). rewrite <- E', E. ring. }
+  assert (Pd == 1 / wsumi z p) as Ed by (field_simplify_eq; lra).
+  rewrite Ed, <- Eb. exact H.
+Qed.
